@@ -29,6 +29,8 @@ def _attr(ex, o, attr, line):
         return Builtin('sympy.' + o.kind)
     if attr == 'args':
         return tuple(o.args)
+    if attr == 'name' and o.kind == 'Symbol':
+        return o.name
     if attr == 'evalf':
         def evalf(ex_):
             if o.kind == 'Number':
@@ -72,6 +74,64 @@ def install(ex):
         from bsvc import builtins_ as bi
         return bi.fn_float(ex_, a0, line)
     ex.ext_builtins['float'] = float_
+
+
+    def sympify(ex_, args, kwargs, line):
+        from spec import sbml_formula as sf
+        from bsvc import strings
+        text = args[0]
+        text = strings.simplify(text) if isinstance(text, strings.SStr) else text
+        if isinstance(text, SymNode):
+            return text
+        if not isinstance(text, str):
+            raise Unsupported('sympify of non-literal text %r' % (text,))
+        try:
+            return from_formula(sf.parse(text, 'python'))
+        except (sf.ParseError, KeyError) as e:
+            ex_.raise_exc('SympifyError', 'could not parse %r' % text, line)
+    ex.ext_builtins['sympy.sympify'] = sympify
+
+
+FUNCS = {'exp': 'exp', 'log': 'log', 'ln': 'log', 'Abs': 'Abs', 'abs': 'Abs', 'Heaviside': 'Heaviside', 'Max': 'Max', 'Min': 'Min'}
+
+
+def from_formula(n):
+    """sympy's tree for a parsed formula: a-b is Add(a, Mul(-1, b)), a/b is Mul(a, Pow(b, -1)), -a is Mul(-1, a); Add and Mul
+    are n-ary (flattened).  Meaning-preserving rewriting done by sympify beyond this is part of the assumed contract."""
+    from spec import sbml_formula as sf
+    k = n.kind
+    if k == 'num':
+        return SymNode('Number', value=tm.mk_real(sf.number(n.value)))
+    if k == 'name':
+        return SymNode('Symbol', name=n.value)
+    if k == 'call':
+        if n.value not in FUNCS:
+            raise KeyError(n.value)
+        return SymNode(FUNCS[n.value], [from_formula(a) for a in n.args])
+    if k == 'neg':
+        return nary('Mul', [SymNode('Number', value=tm.mk_real(-1)), from_formula(n.args[0])])
+    a, b = (from_formula(x) for x in n.args)
+    if k == '+':
+        return nary('Add', [a, b])
+    if k == '-':
+        return nary('Add', [a, nary('Mul', [SymNode('Number', value=tm.mk_real(-1)), b])])
+    if k == '*':
+        return nary('Mul', [a, b])
+    if k == '/':
+        return nary('Mul', [a, SymNode('Pow', [b, SymNode('Number', value=tm.mk_real(-1))])])
+    if k == '^':
+        return SymNode('Pow', [a, b])
+    raise KeyError(k)
+
+
+def nary(kind, args):
+    flat = []
+    for a in args:
+        if a.kind == kind:
+            flat.extend(a.args)
+        else:
+            flat.append(a)
+    return SymNode(kind, flat)
 
 
 extensions.INSTALLERS.append(install)
